@@ -272,36 +272,35 @@ def contract_names(*cs):
 
 # ---------------------------------------------------------------- solver-hard systems (mined, see tools/mine_lp_hard.py)
 _LP_HARD = None
+LP_SIGNS = [(s1, s2, s3) for s1 in (1.0, -1.0) for s2 in (1.0, -1.0) for s3 in (1.0, -1.0)]
 
 
-def lp_hard_corpus():
-    """satisfiable, badly scaled systems on which the solver's presolved first answer is not optimal (observed on this build)"""
+def lp_hard_corpus(stable_only=True):
+    """satisfiable, badly scaled systems (exact dyadic witness) on which the solver's presolved first answer is not optimal
+    (observed on this build).  `stable` entries are those on which the unchanged tree answers every query the checks derive from
+    them correctly (tools/validate_lp_hard.py); the others are kept as saved inputs of known findings."""
     global _LP_HARD
     if _LP_HARD is None:
         import glob
         import json
         import os
         d = os.path.join(os.path.dirname(os.path.dirname(os.path.abspath(__file__))), "corpus", "lp_hard")
-        _LP_HARD = [json.load(open(f)) for f in sorted(glob.glob(os.path.join(d, "*.json")))]
-        _LP_HARD = [e for e in _LP_HARD if not e.get("raised")]
-    return _LP_HARD
+        _LP_HARD = []
+        for f in sorted(glob.glob(os.path.join(d, "*.json"))):
+            e = json.load(open(f))
+            e["file"] = os.path.basename(f)
+            _LP_HARD.append(e)
+    return [e for e in _LP_HARD if not e.get("raised") and (e.get("stable", False) or not stable_only)]
 
 
-@st.composite
-def lp_hard_s(draw, ops=("refines", "simplify", "is_empty")):
-    """a corpus system with every variable optionally negated (moves the feasible region to another orthant without changing the
-    numerics), variables and rows permuted; returns (terms, witness, recorded row or None)"""
-    pool = [e for e in lp_hard_corpus() if e["op"] in ops]
-    e = pool[draw(st.integers(0, len(pool) - 1))]
-    old = sorted({n for t in e["terms"] for n in t[0]} | set(e["witness"]))
-    new = draw(st.permutations(["a", "b", "c", "x", "y"][:max(3, len(old))]))[:len(old)]
-    sg = {n: draw(st.sampled_from([1.0, -1.0])) for n in old}
-    ren = dict(zip(old, new))
-    terms = [[{ren[n]: v * sg[n] for n, v in t[0].items()}, t[1]] for t in e["terms"]]
-    w = {ren[n]: v * sg[n] for n, v in e["witness"].items()}
-    perm = draw(st.permutations(list(range(len(terms)))))
-    row = None if e.get("row") is None else perm.index(e["row"])
-    return [terms[i] for i in perm], w, row
+def lp_hard_system(entry, signs):
+    """the system with its variables renamed to a, b, c and each negated or not (moves the feasible region to another orthant
+    without changing the magnitudes): (terms, witness)"""
+    old = sorted({n for t in entry["terms"] for n in t[0]} | set(entry["witness"]))
+    ren = dict(zip(old, ["a", "b", "c"]))
+    sg = dict(zip(old, signs))
+    terms = [[{ren[n]: v * sg[n] for n, v in t[0].items()}, t[1]] for t in entry["terms"]]
+    return terms, {ren[n]: v * sg[n] for n, v in entry["witness"].items()}
 
 
 # ---------------------------------------------------------------- unusual variable names
